@@ -1,4 +1,5 @@
 import Driver.Codec
+import Driver.SearchState
 import TakVerif.Impl.Alloc
 import TakVerif.Impl.Book
 import TakVerif.Impl.Bot
@@ -8,6 +9,7 @@ open Tak
 /-- driver state: the Zobrist basis sent by the harness; per-module session state is added by the modules -/
 structure St where
   basis : Array W := Array.replicate 64 0#64
+  search : SearchSess := {}
   -- C09 session: heap-side and pure-side interpreter states (`Tak.HState.step` / `Tak.PState.step`, the very
   -- functions `C09.heap_refines_pure` is about) and the harness' slot -> handle table
   hs : Tak.HState := {}
